@@ -16,7 +16,7 @@
   `fetch_add`; a ticket is published once the slot of the previous round was released; the batch pop
   takes a prefix of published tickets and, if the head was already published when it began, at least one.
 -/
-import Babylon.GC.LiveMain
+import Babylon.GC.LiveRegions
 import Babylon.GC.LiveEnabled
 
 namespace Babylon.Properties.C10
@@ -305,6 +305,15 @@ it to exit before). -/
 theorem gc_stop_terminates (c : Cfg) (x : Exec c) (n0 : Nat) (hf : Fair x n0) :
     ∃ n, (x.σ n).stop = .returned :=
   stop_terminates x n0 hf
+
+/-- The same with the environment hypothesis in its per-region form (`RegionsProceed`): every slot
+that has read, or holds, an epoch below the current global version — a critical region entered before
+the last tick, in particular every region that was open when `stop()` was called and could block a
+retired reclaimer — eventually takes its next step (stores its slot, then closes).  Regions entered
+after the last tick are not constrained at all. -/
+theorem gc_stop_terminates_regions_close (c : Cfg) (x : Exec c) (n0 : Nat) (hc : Contract x n0)
+    (hr : RegionsProceed x n0) : ∃ n, (x.σ n).stop = .returned :=
+  stop_terminates_regions x n0 hc hr
 
 /-- both halves together: under the same hypotheses there is a moment at which `stop()` has
 returned and every reclaimer whose `retire` obtained its ticket before `stop()` was called has been
